@@ -171,7 +171,7 @@ def generate(tier, rng):
     for _ in range(n_c // 3):
         sx, sy = rng.random() < 0.5, rng.random() < 0.5
         nx, ny = rng.randint(1 + int(sx), 12), rng.randint(1 + int(sy), 12)
-        fx, fy = rng.randint(0, nx), rng.randint(0, ny)
+        fx, fy = (rng.randint(0, nx), rng.randint(0, ny)) if rng.random() < 0.7 else (rng.randint(-2, nx + 3), rng.randint(-2, ny + 3))
         k = rng.randint(1, 4)
         shape = rng.choice(['vv', 'mv', 'vm', 'mm'])
         r1, c1 = (0, k) if shape[0] == 'v' else (rng.randint(1, 3), k)
@@ -183,7 +183,7 @@ def generate(tier, rng):
             yield 'RDM %d %d %s %d %d %s %s %s' % (r1, c1, fm(sx, nx, fx), r2, c2, fm(sy, ny, fy), L(a), L(b))
     for _ in range(n_c // 8):
         s = rng.random() < 0.5
-        n = rng.randint(2, 12); f = rng.randint(0, n)
+        n = rng.randint(2, 12); f = rng.randint(0, n) if rng.random() < 0.7 else rng.randint(-2, n + 3)
         lo, hi = lims(s, n)
         cs = elems(rng, lo, hi, rng.randint(1, 8))
         a, b = sorted([rng.randint(lo, hi), rng.randint(lo, hi)])
